@@ -21,12 +21,12 @@ def encOutcome : Outcome → String
   | .tokErr => "tokerr"
   | .outOfFuel => "fuel"
 
-/-- `parse <rule id> <fuel> tok*` → outcome, then first-pass counters -/
-def handleParse (fs : List String) : String :=
+/-- `parse <rule id> <fuel> tok*` (`parsev`: with verbose = true) → outcome, then first-pass counters -/
+def handleParse (fs : List String) (verbose : Bool := false) : String :=
   match fs with
   | rid :: fuel :: toks =>
     let w : Array RTok := (toks.map readRTok).toArray
-    let (o, s1, _, r1) := parse Gen.prog w (nat fuel) (nat rid)
+    let (o, s1, _, r1) := parse Gen.prog w (nat fuel) (nat rid) verbose
     let first := match r1 with | .ok _ => "ok" | .fail _ => "fail" | .raised => "raised" | .undecided => "undecided" | .tokErr => "tokerr" | .outOfFuel => "fuel"
     s!"{encOutcome o} first={first} pos={s1.pos} fetched={s1.fetched} peeks={s1.peeks} nexts={s1.nexts} resets={s1.resets} assumed={s1.assumed}"
   | _ => "bad-request"
